@@ -268,6 +268,7 @@ func C04(c *Ctx) {
 	c.c04Predicates()
 	c.typePredicateRule("C04-12")
 	c.methodIterationRule("C04-13")
+	c.nodeAccessorRule("C04-14")
 
 	r.Rule("C04-9", "cast ladder identity: a function that can wrap a node (calls NewTypecast/NewStringer) returns its node parameter X unchanged with ok=true only if reach ⇒ AssignableTo(X.ExprType(), T)")
 	nid := 0
